@@ -1,5 +1,5 @@
 From Coq Require Import List ZArith NArith.
-From Circ Require Import Lib.Obs Model.Irc.
+From Circ Require Import Lib.Obs Model.Line Model.LineObs Model.Irc.
 Import ListNotations.
 
 Definition obs_str (cmd : list N) (pfx : option (list N)) (a : list (list N)) : T :=
@@ -10,3 +10,17 @@ Definition obs_parse (s : list N) : T :=
   | PCrash => Tl []
   | POk p c a => Tl [Tb p; Topt Tb c; Tlist Tb a]
   end.
+
+(* several messages serialised one after the other (a rejected message writes
+   nothing), the bytes cut into reads of the given sizes (the remainder is the
+   last read), received by the Line protocol.  ASCII only: code points = bytes. *)
+Fixpoint cut_at (sizes : list nat) (s : list N) : list (list N) :=
+  match sizes with
+  | [] => [s]
+  | n :: r => firstn n s :: cut_at r (skipn n s)
+  end.
+
+Definition obs_irc_stream (ms : list (list N * option (list N) * list (list N))) (sizes : list nat) : T :=
+  obs_client (cut_at sizes
+    (flat_map (fun m => match to_str {| command := fst (fst m); prefix := snd (fst m); args := snd m |} with
+                        | Some b => b | None => [] end) ms)).
